@@ -611,7 +611,7 @@ theorem map_not_ok {α β : Type} {r : Res α} {f : α → β} (h : ∀ x r' p, 
 omit hext in
 /-- `Option<T>`: `null` is `None`, anything else is `Some` of the inner target -/
 theorem agree_option (s : Schema) (f t : Nat) (v : JV) (hv : VOK v)
-    (ih : Agree1 (deTyped env f t s) (FromValue.fromValue cfg' ext' s v) (T ext v)) (hT : ∃ c tl, T ext v = c :: tl ∧ HeadOf v c) :
+    (ih : v ≠ .null → Agree1 (deTyped env f t s) (FromValue.fromValue cfg' ext' s v) (T ext v)) (hT : ∃ c tl, T ext v = c :: tl ∧ HeadOf v c) :
     Agree1 (deTyped env (f + 1) t (.option s)) (FromValue.fromValue cfg' ext' (.option s) v) (T ext v) := by
   intro rest pos hs
   obtain ⟨c, tl, hT, hc⟩ := hT
@@ -628,7 +628,7 @@ theorem agree_option (s : Schema) (f t : Nat) (v : JV) (hv : VOK v)
     rw [this]
     simp [Res.bind, Gen.identNull]
   | bool _ | num _ | str _ | arr _ | obj _ =>
-    have ih' := ih rest pos hs
+    have ih' := ih (by intro h; cases h) rest pos hs
     simp only [FromValue.fromValue]
     rw [hT] at ih' ⊢
     simp only [List.cons_append] at ih' ⊢
@@ -918,9 +918,24 @@ theorem agree_seq (s : Schema) (f t : Nat) (v : JV) (hv : VOK v) (hd : DepthOK e
     simp only [ht.2.2.2.2.2.2.1, Bool.false_eq_true, if_false]
     exact peekInvalidType_not_ok _ _ _ _ _ _
 
+omit hflt hap hext in
+/-- positionwise agreement of the element parsers of a fixed-length visitor (tuple, struct fields in order) with the
+    elements of an array: the i-th schema on the i-th element -/
+def TupAgree (de : Schema → Bytes → Nat → TOut) (fv : Schema → JV → FromValue.R) : List Schema → List JV → Prop
+  | s :: ss, x :: xs => Agree1 (de s) (fv s x) (T ext x) ∧ TupAgree de fv ss xs
+  | _, _ => True
+
+omit hflt hap hext in
+theorem tupAgree_of_all (de : Schema → Bytes → Nat → TOut) (fv : Schema → JV → FromValue.R) : ∀ (ss : List Schema) (xs : List JV),
+    (∀ s ∈ ss, ∀ x ∈ xs, Agree1 (de s) (fv s x) (T ext x)) → TupAgree ext de fv ss xs
+  | [], _, _ => trivial
+  | _ :: _, [], _ => trivial
+  | s :: ss, x :: xs, h => ⟨h s (by simp) x (by simp),
+      tupAgree_of_all de fv ss xs fun s' hs' x' hx' => h s' (by simp [hs']) x' (by simp [hx'])⟩
+
 /-- a fixed-length tuple visitor on the elements of an array, against `tupleSeq`: the elements it leaves are left in the text -/
 theorem tupleLoop_text (f t : Nat) : ∀ (ss : List Schema) (xs : List JV),
-    (∀ s ∈ ss, ∀ x ∈ xs, Agree1 (deTyped env f t s) (FromValue.fromValue cfg' ext' s x) (T ext x)) →
+    TupAgree ext (deTyped env f t) (FromValue.fromValue cfg' ext') ss xs →
     (∀ x ∈ xs, ∃ c tl, T ext x = c :: tl ∧ HeadOf x c) →
     ∀ (first : Bool) (acc : List TVal) (rest : Bytes) (pos : Nat),
       match FromValue.tupleSeq cfg' ext' ss xs with
@@ -976,7 +991,7 @@ theorem tupleLoop_text (f t : Nat) : ∀ (ss : List Schema) (xs : List JV),
           rw [hasNextElement_comma hw h5]
           simp [Res.bind]
       obtain ⟨q, hq, hstep⟩ := step
-      have hel := hag s (by simp) x (by simp) (Ttail ext xs ++ 0x5d :: rest) q (sepOK_tail ext xs rest)
+      have hel := hag.1 (Ttail ext xs ++ 0x5d :: rest) q (sepOK_tail ext xs rest)
       have hlen : (if first then Telems ext (x :: xs) else Ttail ext (x :: xs)).length =
           (if first then 0 else 1) + (T ext x).length + (Ttail ext xs).length := by
         cases first with
@@ -998,7 +1013,7 @@ theorem tupleLoop_text (f t : Nat) : ∀ (ss : List Schema) (xs : List JV),
         simp only at hel ⊢
         rw [hel]
         simp only [Res.map, Res.bind]
-        have hrec := ih xs (fun s' hs' x' hx' => hag s' (by simp [hs']) x' (by simp [hx'])) (fun x' hx' => hhd x' (by simp [hx']))
+        have hrec := ih xs hag.2 (fun x' hx' => hhd x' (by simp [hx']))
           false (y :: acc) rest (q + (T ext x).length)
         simp only [Bool.false_eq_true, if_false, Bool.false_and] at hrec
         cases hall : FromValue.tupleSeq cfg' ext' ss xs with
@@ -1050,7 +1065,7 @@ theorem tupleSeq_rem_mem (cfg : FromValue.Cfg) (e : FromValue.Ext) : ∀ (ss : L
 
 /-- fixed-length tuples -/
 theorem agree_tuple (ss : List Schema) (f t : Nat) (v : JV) (hv : VOK v) (hd : DepthOK env t v)
-    (ih : ∀ xs, v = .arr xs → ∀ s ∈ ss, ∀ x ∈ xs, Agree1 (deTyped env f (t + 1) s) (FromValue.fromValue cfg' ext' s x) (T ext x)) :
+    (ih : ∀ xs, v = .arr xs → TupAgree ext (deTyped env f (t + 1)) (FromValue.fromValue cfg' ext') ss xs) :
     Agree1 (deTyped env (f + 1) t (.tuple ss)) (FromValue.fromValue cfg' ext' (.tuple ss) v) (T ext v) := by
   intro rest pos hs
   obtain ⟨c, tl, hT, hc⟩ := T_head ext hext v hv
@@ -1174,14 +1189,14 @@ theorem agree_deTyped {env : Env} (hflt : env.flt = false) (cfg' : FromValue.Cfg
       simpa [FromValue.fromValue] using this
     | option s' =>
       exact agree_option ext hflt cfg' hap ext' s' f t v hv
-        (ih s' (by simp only [Schema.size] at hs; omega) (by simpa [agreeFrag] using hfr) t v hv hd) (T_head ext hext v hv)
+        (fun _ => ih s' (by simp only [Schema.size] at hs; omega) (by simpa [agreeFrag] using hfr) t v hv hd) (T_head ext hext v hv)
     | seq s' =>
       refine agree_seq ext hext hflt cfg' hap ext' s' f t v hv hd fun xs hxs x hx => ?_
       subst hxs
       exact ih s' (by simp only [Schema.size] at hs; omega) (by simpa [agreeFrag] using hfr) (t + 1) x (vok_elem xs x hx hv)
         (depthOK_elem t xs x hx hd)
     | tuple ss =>
-      refine agree_tuple ext hext hflt cfg' hap ext' ss f t v hv hd fun xs hxs s' hs' x hx => ?_
+      refine agree_tuple ext hext hflt cfg' hap ext' ss f t v hv hd fun xs hxs => tupAgree_of_all ext _ _ ss xs fun s' hs' x hx => ?_
       subst hxs
       have hsz := size_mem_list ss s' hs'
       exact ih s' (by simp only [Schema.size] at hs; omega) (agreeFrag_mem ss s' hs' (by simpa [agreeFrag] using hfr)) (t + 1) x
